@@ -23,7 +23,7 @@ from vk.ob import obligation, pick, PARAM, THOROUGH
 HEX = ("00" * 32, "ab" * 32, "ff" * 32)
 NAMES = ("e", "p")
 VALS = ("a", "b", "")
-SHAPE = PARAM % 7
+SHAPE = PARAM % 8
 ALPH = "a'\\\x00%"
 
 
@@ -35,8 +35,8 @@ def _may_sql(f, e):
 
 @obligation(funcs=["storage.db.Subscription.build_query", "storage.db.Subscription.evaluate_filter",
                    "storage.db.DBStorage.process_tags"],
-            params=range(7), timeout=(280, 1200),
-            bounds="PARAM = filter shape: 0 ids, 1 authors (+ delegation tag on the event), 2 kinds (1-2 values), 3 since/until, "
+            params=range(8), timeout=(280, 1200),
+            bounds="PARAM = filter shape: 7 two tag conditions in one filter (event with two tags), 0 ids, 1 authors (+ delegation tag on the event), 2 kinds (1-2 values), 3 since/until, "
                    "4 one tag condition (1-2 values incl. ''), 5 kinds+tag+until, 6 two filters (kinds | tag).  ints symbolic, "
                    "strings by selector from small pools; event: symbolic kind/created_at, 1-2 tags of 1-2 items")
 def ob_sql_where(idsel: int, pksel: int, kind: int, ts: int, tn: int, tv: int, bare: bool, deleg: int,
@@ -53,10 +53,16 @@ def ob_sql_where(idsel: int, pksel: int, kind: int, ts: int, tn: int, tv: int, b
     pre: SHAPE in (2, 5, 6) or (k1 == 0 and k2 == 0)
     pre: SHAPE in (3, 5) or (since is None and until is None)
     pre: SHAPE != 5 or since is None
-    pre: SHAPE in (4, 5, 6) or (tn == 0 and tv == 0 and not bare and n1 == 0 and v1 == 0 and v2 == 0)
-    pre: (SHAPE in (2, 4) or not two) and (two or (k2 == 0 and v2 == 0))
+    pre: SHAPE in (4, 5, 6, 7) or (tn == 0 and tv == 0 and not bare and n1 == 0 and v1 == 0 and v2 == 0)
+    pre: (SHAPE in (2, 4, 7) or not two) and (two or (k2 == 0 and v2 == 0) or SHAPE == 7)
     post: _.startswith("ok")
     """
+    return where_body(idsel, pksel, kind, ts, tn, tv, bare, deleg, h1, k1, k2, two, since, until, n1, v1, v2)
+
+
+def where_body(idsel, pksel, kind, ts, tn, tv, bare, deleg, h1, k1, k2, two, since, until, n1, v1, v2):
+    """body of ob_sql_where (no contract of its own: CrossHair would otherwise enforce it at the call site of
+    harness/C02_sql.py and ignore the failing paths)"""
     logging.disable(logging.CRITICAL)
     tags = [[pick(NAMES, tn)] + ([] if bare else [pick(VALS, tv)])]
     if deleg:
@@ -74,12 +80,23 @@ def ob_sql_where(idsel: int, pksel: int, kind: int, ts: int, tn: int, tv: int, b
         f["kinds"] = [k1] + ([k2] if two else [])
     if SHAPE in (4, 5):
         f["tags"] = [(pick(NAMES, n1), sorted(set([pick(VALS, v1)] + ([pick(VALS, v2)] if two else []))))]
+    if SHAPE == 7:
+        # two conditions (#e and #p) in one filter; the event carries an e tag (tn/tv) and, if `two`, a second p tag
+        f["tags"] = [("p", sorted(set([pick(VALS, v2)] + ([pick(VALS, n1)] if two else [])))), ("e", [pick(VALS, v1)])]
+        tags[0][0] = "e"
+        if two:
+            tags.append(["p", pick(VALS, tv)])
+            tags.append(["p", pick(VALS, n1)])
+        e["tags"] = tags
     if SHAPE == 6:
         f["kinds"] = [k1]
         filters = [f, dict(ids=None, authors=None, kinds=None, since=None, until=None, tags=[(pick(NAMES, n1), [pick(VALS, v1)])])]
     if SHAPE == 3 and since is None and until is None:
         return "ok-noshape"
-    stmt, env, text = S.template(filters)
+    try:
+        stmt, env, text = S.template(filters)
+    except sqlmini.Unsupported as ex:
+        return "harness-error: generated SQL is outside the modelled grammar (%s)" % ex
     ev = Event(id=e["id"], pubkey=e["pubkey"], kind=kind, created_at=ts, tags=tags, content="", sig="00" * 64)
     row = dict(id=bytes.fromhex(e["id"]), pubkey=bytes.fromhex(e["pubkey"]), kind=kind, created_at=ts, tags=S.tag_rows(ev))
     if stmt["where"] is None:
@@ -90,6 +107,23 @@ def ob_sql_where(idsel: int, pksel: int, kind: int, ts: int, tn: int, tv: int, b
     if not got and any(nip01.must(x, e) for x in filters):
         return "matching row not selected: filters %r event %r\n%s" % (filters, e, text)
     return "ok" if got else "ok-nomatch"
+
+
+def pre_ok(idsel, pksel, kind, ts, tn, tv, bare, deleg, h1, k1, k2, two, since, until, n1, v1, v2):
+    """the bounds of ob_sql_where as a predicate (used by harness/C02_sql.py)"""
+    return ((0 <= idsel < 3 and 0 <= pksel < 3 and 0 <= kind < 70000 and 1 <= ts < 4294967296)
+            and (0 <= tn < 2 and 0 <= tv < 3 and 0 <= deleg < 3 and 0 <= h1 < 3 and 0 <= k1 < 70000 and 0 <= k2 < 70000)
+            and (since is None or 0 <= since < 2145934800)
+            and (until is None or 0 <= until < 2145934800)
+            and (0 <= n1 < 2 and 0 <= v1 < 3 and 0 <= v2 < 3)
+            and (SHAPE == 0 or idsel == 0)
+            and (SHAPE == 1 or (pksel == 0 and deleg == 0))
+            and (SHAPE in (0, 1) or h1 == 0)
+            and (SHAPE in (2, 5, 6) or (k1 == 0 and k2 == 0))
+            and (SHAPE in (3, 5) or (since is None and until is None))
+            and (SHAPE != 5 or since is None)
+            and (SHAPE in (4, 5, 6, 7) or (tn == 0 and tv == 0 and not bare and n1 == 0 and v1 == 0 and v2 == 0))
+            and ((SHAPE in (2, 4, 7) or not two) and (two or (k2 == 0 and v2 == 0) or SHAPE == 7)))
 
 
 def _lex_fragment(text):
